@@ -373,7 +373,7 @@ def instances(tier, seed):
     if tier == 'thorough':
         yield 'h_canon_symkeys', dict(width=3, nk=3)
     for (w, win, pos) in ([(32, 4, 0), (64, 4, 30)] if tier == 'quick' else
-                          [(w, 6, p) for w in (16, 32, 64, 256, 267, 1023) for p in (0, (w - 6) // 2, w - 6) if w < 1000 or p == w - 6]):
+                          [(w, 6, p) for w in (16, 32, 64, 256, 267, 900) for p in (0, (w - 6) // 2, w - 6)]):
         yield 'h_canon_symkeys', dict(width=w, nk=2, win=win, pos=pos)
     # parsers: every valid label-kind assignment x every antichain of pruned sub-trees
     trees = [(1, [0, 1]), (2, [0, 3]), (2, [1, 2, 3]), (3, [0, 7]), (3, [2, 3, 6]), (3, [0, 1, 6, 7]), (4, [0, 15]), (4, [5, 6, 7, 12]),
